@@ -83,7 +83,9 @@ def _min_pair_ok(a, dmin=0.05):
         if zero.any():
             c = complete_cell(c)
         pbc = a.pbc
-    _, D = get_distances(a.positions, cell=c, pbc=pbc)
+    from matsim.mic import exact_mic_distances
+
+    D = exact_mic_distances(a.positions, c, pbc)
     np.fill_diagonal(D, np.inf)
     return D.min() >= dmin
 
